@@ -105,10 +105,16 @@ class Env:
         return np.random.default_rng([self.seed, t])
 
 
+class CaseAborted(BaseException):
+    """raised by Out.violation once a case has recorded ABORT_CASE_AFTER violations (BaseException: check code that catches
+    Exception around library calls does not swallow it)"""
+
+
 class Out:
     """Per-case recorder (created in the worker, merged in the parent)."""
 
     MAX_VIOL_PER_CASE = 200
+    ABORT_CASE_AFTER = 5000
 
     def __init__(self):
         self.states = 0
@@ -145,6 +151,12 @@ class Out:
 
     def violation(self, key, what, **detail):
         self.n_violations += 1
+        if self.n_violations == self.ABORT_CASE_AFTER:
+            # a broken tree can make every further execution of the case slower and slower (e.g. state leaking between the
+            # objects a case builds); the property is already decided for this case, so it stops here. Never reached on a tree
+            # where the property holds (no violation is recorded at all).
+            self.counters['case_stopped_after_%d_violations' % self.ABORT_CASE_AFTER] += 1
+            raise CaseAborted()
         self._per_key[key] = self._per_key.get(key, 0) + 1
         # every violation is counted; at most 3 records per finding key (and 200 per case) are materialised
         if self._per_key[key] <= 3 and len(self.violations) < self.MAX_VIOL_PER_CASE:
@@ -268,6 +280,8 @@ def _execute_case(mod, case, env):
                                   '%s gives a different result (%s) when its array arguments are handed over in another memory layout (Fortran order / strided view)' % (qual, idx[7:]))
                 else:
                     out.violation('immutability/%s/argument_modified' % qual, '%s modified its argument %s in place' % (qual, idx))
+    except CaseAborted:
+        pass
     except Exception as e:  # safety net: crash inside numqi == violation; crash in harness == harness error
         site = exc_site(e)
         tb = traceback.format_exc()
